@@ -76,7 +76,14 @@ pub fn example_texts() -> Vec<(String, String)> {
         })
         .unwrap_or_default();
     v.sort();
+    // none of the shipped examples names all builtin aliases: one synthetic program does, and
+    // binds each alias to its documented definition (accepted only if they are the same type)
+    v.push(("zz_builtin_aliases.simf".to_string(), alias_table_program()));
     v
+}
+
+pub fn alias_table_program() -> String {
+    render_plain(&super::mini::alias_table_prog())
 }
 
 pub fn type_pool() -> Vec<Ty> {
